@@ -62,7 +62,7 @@ def check(gen_dir, out_dir, only=None):
                         break
             # interleavings on one reader, and the path-based constructor: same expectation
             for route in ('iter_after_nth_last', 'iter_after_partial_iter_and_nth0', 'path_iter_idx', 'iter_idx_chunked',
-                          'path_read_shapes_idx', 'path_read_pairs_idx'):
+                          'path_read_shapes_idx', 'path_read_pairs_idx', 'nth_ascending', 'read_idx'):
                 if route not in d:
                     continue
                 counters['interleaved_or_path_iterations'] = counters.get('interleaved_or_path_iterations', 0) + 1
